@@ -9,8 +9,9 @@ CONSTANTS
   Ops = {1, 2, 3, 4, 5, 6, 7, 8}
   MaxInFlight = 8
   AuctionImpl = "intended"
+  Resolution = "locked"
   MaxRounds = 0
-INVARIANTS TypeOKC12 KeepsLastGood FallbackWhenNone AnswersRight LockBalanced LockAccounting
+INVARIANTS TypeOKC12 KeepsLastGood FallbackWhenNone AnswersRight AnswersInForce LockBalanced LockAccounting
 CONSTRAINT HWM
 POSTCONDITION TraceAccepted
 CHECK_DEADLOCK FALSE
